@@ -31,11 +31,19 @@ impl Format {
 
     /// Get a newline followed by len spaces, unles self is compressed.
     pub fn get_indent(&self, len: usize) -> &'static str {
-        static INDENT: &str = "\n                                                                                ";
+        // A newline and 256 spaces.  Deeper indentation than that is
+        // not increased further (rather than panicking on the slice).
+        static INDENT: &str = concat!(
+            "\n",
+            "                                                                ",
+            "                                                                ",
+            "                                                                ",
+            "                                                                ",
+        );
         if self.is_compressed() {
             ""
         } else {
-            &INDENT[..=len]
+            &INDENT[..=len.min(INDENT.len() - 1)]
         }
     }
 }
